@@ -55,8 +55,9 @@ def run(ctx):
                     th[0, n - 1] = th[n - 1, 0] = [t, np.nextafter(t, 1), np.nextafter(t, 0), -np.nextafter(t, 1), 0.0][(i + k) % 5]
                 thetas.append(th)
                 B = rng.normal(size=(n, n)); covs.append(B @ B.T / n)
-            ua = arguments.UserArguments(sparsity_weight=0.1, iteration_limit=1, label_switching_cost=1.0, min_cluster_size=1,
-                                         min_meaningful_covariance=0, num_clusters=K, num_processors=1, biased_covariance=False, window_size=1)
+            ua = arguments.UserArguments(sparsity_weight=[0.1, 0.0, 1.0][i % 3], iteration_limit=1 + i % 3, label_switching_cost=[1.0, 0.0, 50.0][i % 3],
+                                         min_cluster_size=1 + i % 4, min_meaningful_covariance=[0, 1e-9, 1e-6, 1e-5, 1e-3][i % 5], num_clusters=K,
+                                         num_processors=1, biased_covariance=bool(i % 2), window_size=1)
             ms = model_state.ModelState.empty_model(ua, None)
             ms.point_labels = list(labels)
             for k, c in enumerate(ms.clusters):
@@ -79,6 +80,9 @@ def run(ctx):
                 bic_l.append(("(%s, %s, %s, %s, %s, %s, %s)" % (c_list(params, c_nat), c_list(labels, c_nat), c_float(np.log(T)), c_list([c_float(v) for v in lds]),
                                                                c_list([c_float(v) for v in trs]), c_nat(P), c_float(got)), case))
         runs = e2e.cached_runs(ctx, e2e.standard_grid(ctx.seed, ctx.thorough), "std")
+        # covariance floors below, at and above the BIC threshold 2e-5
+        runs = runs + e2e.cached_runs(ctx, [{"N": 2, "W": 2, "K": 2, "beta": 3.0, "lam": 0.11, "limit": 3, "m": 2, "biased": False, "eps": eps, "joint": False,
+                                             "lengths": [60], "data_seed": 41 + j, "rng_seed": 41 + j, "regimes": 2} for j, eps in enumerate([1e-9, 1e-6, 2e-5, 1e-3])], "c16")
         for r in runs:
             ctx.count("run")
             if r["error"] is not None:
